@@ -148,9 +148,11 @@ def catchWF (loaders : List (String × String)) (handlers : List (String × List
         (raises.all (fun r => !(r.1 == l.2) || r.2.2.any p.2.contains)))
 
 /-- a read of text (file in text mode, standard input) fails with an OSError or a UnicodeError:
-    the handler names both, or `Exception` -/
+    the handler names both — each by itself or by a class above it (UnicodeError < ValueError <
+    Exception < BaseException, OSError < Exception < BaseException) -/
 def readCatchWF (names : List String) : Bool :=
-  names.contains "Exception" || (names.contains "OSError" && names.contains "UnicodeError")
+  let top := names.contains "Exception" || names.contains "BaseException"
+  (names.contains "OSError" || top) && (names.contains "UnicodeError" || names.contains "ValueError" || top)
 
 def WF (F : Facts) : Bool :=
   catchWF F.targetLoaders F.loadCatch F.loaderRaises &&
